@@ -248,7 +248,8 @@ def hll_cpc_bound_shapes(facts):
             import semantics
             t = (semantics.symbolic_return(fn, params=True) or "?").replace("hll_constants::", "")
             upper = fn["name"] == "getUpperBound"
-            want = C("(usingXAndYTables(couponCount_)/(1%s(p0*COUPON_RSE)))" % ("-" if upper else "+"))
+            # COUPON_RSE = 0.409 / 2^13 (named constants read as their values)
+            want = C("(usingXAndYTables(couponCount_)/(1%s(p0*%s)))" % ("-" if upper else "+", repr(0.409 / (1 << 13))))
             key = "CouponList::%s:formula" % fn["name"]
             if want in t and t.startswith("fmax("):
                 out.append(ob("bounds.shape", key, fn["pat"], "discharged", "fmax(est / (1 %s n * RSE), couponCount)" % ("-" if upper else "+"), fn["qname"]))
@@ -355,10 +356,13 @@ def hll_cpc_bound_shapes(facts):
             import semantics
             est = "sketch.get_icon_estimate()" if "icon" in fn["name"] else "sketch.get_hip_estimate()"
             T = ("ICON" if "icon" in fn["name"] else "HIP")
-            x = "((14<sketch.get_lg_k())?%s_ERROR_CONSTANT:(%s_%s_SIDE_DATA[(((sketch.get_lg_k()-4)*3)+(kappa-1))]/10000))" % (T, T, "LOW" if upper else "HIGH")
+            import math
+            # named constants read as their values: ICON error constant ln 2, HIP error constant sqrt(ln 2 / 2), tables scaled by 10^4
+            errc = repr(math.log(2.0)) if T == "ICON" else repr(math.sqrt(math.log(2.0) / 2.0))
+            x = "((14<sketch.get_lg_k())?%s:(%s_%s_SIDE_DATA[(((sketch.get_lg_k()-4)*3)+(kappa-1))]/10000))" % (errc, T, "LOW" if upper else "HIGH")
             core = "(%s/(1%s(kappa*(%s/sqrt((1<<sketch.get_lg_k()))))))" % (est, "-" if upper else "+", x)
             want = C("ceil(%s)" % core) if upper else C("max(%s,sketch.get_num_coupons())" % core)
-            got = semantics.symbolic_return(fn)
+            got = semantics.symbolic_return(fn, values=True)
             if got != want:
                 probs.append("the bound returned is `%s`, expected `%s`" % (got, want))
             guards = [txt(s["c"]).replace(" ", "") for s in stmts_of(fn["body"]) if s.get("k") == "If" and always_throws(s.get("t"))]
